@@ -621,16 +621,63 @@ void op_set_level(World& W, int wi)
 }
 
 // ---- C17: logger / sink life cycle ----
+// create_or_get_sink by NAME. Outside C17 every sink gets a fresh name; in C17 names come from a small pool, so a name is
+// looked up again while its sink lives (must be the same object: idempotent) and re-created after the sink died.
 int make_sink(World& W, std::optional<quill::PatternFormatterOptions> ov = std::nullopt)
 {
   int idx = static_cast<int>(W.sinks.size());
+  std::string name = "sink" + std::to_string(idx);
+  if (is_prop("C17"))
+  {
+    static char const* pool[] = {"sA", "sB", "sC", "sD"};
+    name = pool[W.c->pick(4)];
+  }
+  auto it = W.sink_by_name.find(name);
+  if (it != W.sink_by_name.end() && !W.sinks[it->second].destroyed)
+  {
+    // the sink of that name is alive (a logger or the user still owns it): lookup and creation must return it
+    SinkInfo& cur = W.sinks[it->second];
+    std::shared_ptr<quill::Sink> sp = SFrontend::create_or_get_sink<RecSink>(name, 9999, ov);
+    if (sp.get() != cur.raw)
+    {
+      fail(W, "create_or_get_sink(\"" + name + "\") returned a different object although the sink of that name is still alive (not idempotent)");
+      return it->second;
+    }
+    try
+    {
+      if (SFrontend::get_sink(name).get() != cur.raw) fail(W, "get_sink(\"" + name + "\") returned a different object than create_or_get_sink");
+    }
+    catch (quill::QuillError const& e)
+    {
+      fail(W, "get_sink(\"" + name + "\") throws although the sink of that name is alive: " + std::string{e.what()});
+    }
+    if (!cur.user_ref) cur.user_ref = std::static_pointer_cast<RecSink>(sp); // the user holds it again
+    W.log_op("GetSink(" + name + "=" + std::to_string(it->second) + ")");
+    return it->second;
+  }
   SinkInfo si;
-  si.name = "sink" + std::to_string(idx);
+  si.name = name;
   std::shared_ptr<quill::Sink> sp = SFrontend::create_or_get_sink<RecSink>(si.name, idx, ov);
   si.user_ref = std::static_pointer_cast<RecSink>(sp);
   si.raw = si.user_ref.get();
   si.has_override = ov.has_value();
+  if (si.raw->_idx != idx)
+  {
+    fail(W, "create_or_get_sink(\"" + name + "\") returned an older object although no sink of that name was alive");
+    return it != W.sink_by_name.end() ? it->second : 0;
+  }
+  if (it != W.sink_by_name.end()) W.r->label("sink_name_recreated");
   W.sinks.push_back(si);
+  W.sink_by_name[name] = idx;
+  try
+  {
+    if (SFrontend::get_sink(name).get() != si.raw) fail(W, "get_sink(\"" + name + "\") does not return the sink that create_or_get_sink just created");
+  }
+  catch (quill::QuillError const& e)
+  {
+    fail(W, "get_sink(\"" + name + "\") throws right after create_or_get_sink created it: " + std::string{e.what()});
+  }
+  if (is_prop("C17")) W.log_op("NewSink(" + name + "=" + std::to_string(idx) + ")");
   return idx;
 }
 
@@ -677,7 +724,12 @@ void op_create_logger(World& W)
   std::vector<int> chosen;
   for (size_t k = 0; k < W.sinks.size(); ++k)
     if (W.sinks[k].user_ref && c.pick(2) == 1 && chosen.size() < 3) chosen.push_back(static_cast<int>(k));
-  if (chosen.empty() || (c.pick(3) == 2 && W.sinks.size() < 8)) chosen.push_back(make_sink(W));
+  if (chosen.empty() || (c.pick(3) == 2 && W.sinks.size() < 24))
+  {
+    int k = make_sink(W);
+    if (W.r->failed) return;
+    if (std::find(chosen.begin(), chosen.end(), k) == chosen.end()) chosen.push_back(k);
+  }
   std::vector<std::shared_ptr<quill::Sink>> sv;
   for (int k : chosen) sv.push_back(W.sinks[k].user_ref);
   LoggerInfo L;
